@@ -10,5 +10,6 @@ for s in $seeds; do
   git -C /repo apply "$(pwd)/seeded/$s/patch.diff"
   ./check "$pid" --tier quick > "replays/seed_${s}.log" 2>&1; rc=$?
   git -C /repo checkout -- .
+  git -C "$(pwd)" checkout -- evidence 2>/dev/null    # evidence committed must come from the unchanged tree
   echo "$s $pid exit=$rc viol=$(grep -c '^VIOLATION' replays/seed_${s}.log) :: $(grep -m1 'what:' replays/seed_${s}.log | cut -c1-200)"
 done
